@@ -392,3 +392,120 @@ def rf34(run):
                           'the reload after a store to %s memory %s the value number of the stored value' % (tn, 'takes' if copied else 'does not take'),
                           line=branch['l'])
     run.min_instances(rule, 20)
+
+
+# ---------------------------------------------------------------------------------------------
+# RF38: folding of a branch on a constant respects the width the branch tests
+# ---------------------------------------------------------------------------------------------
+
+def rf38(run):
+    import rf_callmode as CM
+    rule = 'RF38'
+    run.rule(rule, 'simplify_func: where BT/BTS/BF/BFS with an immediate condition is replaced by a jump or by nothing, then over '
+                   'opcode x immediate kind x representative immediates (0, 1, 2, -1, 2^31, 2^32, 2^32+1, 0xffffffff00000000) the '
+                   'replacement is a jump exactly when the branch would be taken: BT/BF test all 64 bits, BTS/BFS the low 32 bits')
+    tu = run.tu('mir')
+    f = tu.func('simplify_func')
+    run.functions_analysed.add(('mir', f.name))
+    site = None
+    for x in f.walk():
+        if x['k'] == 'IfStmt':
+            c = F.src(x['c'][0])
+            if 'MIR_BTS' in c and 'MIR_BFS' in c and 'ops[1]' in c:
+                if site is None or x['l'] < site['l']:
+                    site = x
+    if site is None:
+        raise F.AnalysisBroken('simplify_func: the constant-branch folding test was not found')
+    ev = CM.TextEnv(tu)
+    codes = dict(tu.enum('MIR_insn_code_t'))
+    modes = dict(tu.enum('MIR_op_mode_t'))
+    imms = [0, 1, 2, -1, 1 << 31, 1 << 32, (1 << 32) + 1, -(1 << 32)]
+    n = 0
+    first = None
+    for cn in ('MIR_BT', 'MIR_BTS', 'MIR_BF', 'MIR_BFS'):
+        for mn in ('MIR_OP_INT', 'MIR_OP_UINT'):
+            for imm in imms:
+                env = {'code': codes[cn], 'insn->code': codes[cn], 'insn->ops[1].mode': modes[mn], 'insn->ops[1].u.i': imm,
+                       'insn->ops[1].u.u': imm & ((1 << 64) - 1)}
+                fires = ev.eval(site['c'][0], env, frozenset())
+                if fires is None:
+                    raise F.AnalysisBroken('simplify_func: folding test not evaluable for %s %s %d' % (cn, mn, imm))
+                if not fires:
+                    run.ob(rule, (cn, mn, imm), True, {'opcode': cn, 'immediate': imm, 'folded': False})
+                    n += 1
+                    continue
+                col = AI.Collector(tu, ev, lambda c: c.get('callee') == 'MIR_new_insn' and len(F.call_args(c)) >= 2
+                                   and F.const_value(F.call_args(c)[1]) == codes['MIR_JMP'])
+                col.run(site['c'][1], dict(env))
+                rem = AI.Collector(tu, ev, lambda c: c.get('callee') == 'MIR_remove_insn')
+                rem.run(site['c'][1], dict(env))
+                jumps = bool(col.hits)
+                low = imm & 0xffffffff if cn in ('MIR_BTS', 'MIR_BFS') else imm
+                nonzero = low != 0
+                taken = nonzero if cn in ('MIR_BT', 'MIR_BTS') else not nonzero
+                ok = jumps == taken and bool(rem.hits)
+                n += 1
+                run.ob(rule, (cn, mn, imm), ok, {'opcode': cn, 'immediate': '%#x' % (imm & ((1 << 64) - 1)), 'folded': True,
+                                                'replaced by a jump': jumps, 'branch is taken': taken})
+                if not ok and first is None:
+                    first = (cn, imm, jumps, taken)
+    if first:
+        cn, imm, jumps, taken = first
+        run.violation(rule, f, 'folding of %s with immediate %#x' % (cn, imm & ((1 << 64) - 1)),
+                      '%s L, %#x is %s, but %s: %s looks at %s' % (cn, imm & ((1 << 64) - 1), 'replaced by `jmp L`' if jumps else 'deleted',
+                                                                    'the branch is taken' if taken else 'the branch is not taken', cn,
+                                                                    'the low 32 bits only' if cn.endswith('S') else 'all 64 bits'), line=site['l'])
+    run.min_instances(rule, 60)
+
+
+def rf38b(run):
+    """the same for the generator's GVN: the value a constant condition is reduced to before the branch is resolved"""
+    import rf_callmode as CM
+    rule = 'RF38'
+    gen = run.tu('gen')
+    f = gen.func('gvn_modify')
+    run.functions_analysed.add(('gen', f.name))
+    sws = R.find_switches(f, lambda c: c.endswith('->code') or c.strip('()') == 'code')
+    regs = {}
+    for sw in sws:
+        try:
+            rs = R.switch_regions(f, sw)
+        except F.AnalysisBroken:
+            continue
+        for r in rs:
+            for nm, lo, hi in r['cases']:
+                if nm in ('MIR_BT', 'MIR_BTS', 'MIR_BF', 'MIR_BFS'):
+                    regs[nm] = r
+    if set(regs) != {'MIR_BT', 'MIR_BTS', 'MIR_BF', 'MIR_BFS'}:
+        raise F.AnalysisBroken('gvn_modify: cases of the conditional branches on one operand not found (%s)' % sorted(regs))
+    ev = CM.TextEnv(gen)
+    codes = dict(gen.enum('MIR_insn_code_t'))
+    for cn, r in sorted(regs.items()):
+        for imm in (0, 1, 2, -1, 1 << 31, 1 << 32, (1 << 32) + 1, -(1 << 32)):
+            env = {'insn->code': codes[cn], 'code': codes[cn], 'val': imm}
+            for st in r['stmts']:
+                for x in F.walk(st):
+                    if x['k'] == 'CallExpr' and x.get('callee') == 'get_gvn_op':
+                        env[F.src(x)] = 1
+            re_ = CM.RetEval(ev)
+            for st in r['stmts']:
+                if st['k'] == 'BreakStmt':
+                    break
+                try:
+                    if not re_.run(st, env):
+                        break
+                except F.AnalysisBroken:
+                    break
+            got = env.get('val')
+            low = imm & 0xffffffff if cn in ('MIR_BTS', 'MIR_BFS') else imm
+            want_taken = (low != 0) if cn in ('MIR_BT', 'MIR_BTS') else (low == 0)
+            ok = got is not None and bool(got) == want_taken
+            run.ob(rule, ('gvn', cn, imm), ok, {'opcode': cn, 'constant condition': '%#x' % (imm & ((1 << 64) - 1)), 'reduced to': got, 'branch is taken': want_taken})
+            if not ok:
+                if got is None:
+                    raise F.AnalysisBroken('gvn_modify: value of the constant condition of %s not evaluable' % cn)
+                run.violation(rule, f, 'GVN folding of %s with condition %#x' % (cn, imm & ((1 << 64) - 1)),
+                              'gvn_modify reduces the constant condition %#x of %s to %s, i.e. treats the branch as %staken; %s looks at %s'
+                              % (imm & ((1 << 64) - 1), cn, got, '' if got else 'not ', cn, 'the low 32 bits only' if cn.endswith('S') else 'all 64 bits'),
+                              line=r['line'])
+                return
